@@ -177,7 +177,7 @@ def match_known(v, known):
         if k.get("status") != "known" or k.get("property") != v["property"]:
             continue
         m = k.get("match", {})
-        if "label" in m and m["label"] != v["label"]:
+        if "label" in m and (v["label"] not in m["label"] if isinstance(m["label"], list) else m["label"] != v["label"]):
             continue
         if "label_prefix" in m and not v["label"].startswith(m["label_prefix"]):
             continue
